@@ -4,5 +4,5 @@ ValsQuick    == {-2, -1, 0, 1, 2}
 ValsThorough == {-3, -2, -1, 0, 1, 2, 3}
 \* 4 * sigma: odd = quarter grid (no two integers equidistant), 2 mod 4 = half grid (equidistant ties)
 Sig4Quick    == {-6, -3, 1, 2, 7}
-Sig4Thorough == {-13, -10, -6, -3, -1, 2, 5, 6, 11}
+Sig4Thorough == {-13, -6, -3, 2, 5, 10}
 =============================================================================
